@@ -8,6 +8,7 @@ import Dassh.Model.Mesh
 import Dassh.Model.Peaks
 import Dassh.Model.Pressure
 import Dassh.Model.Power
+import Dassh.Model.Orifice
 
 open Dassh.Model
 
@@ -91,6 +92,17 @@ def handle (line : String) : String :=
       let steps := triples vs
       "ok " ++ showFloats [Power.renorm (fixed == "1") avg cl steps, Power.delivered (fixed == "1") avg cl steps]
     | _, _ => "bad-op"
+  | "group" :: strict :: ng :: rest =>
+    -- group <0|1> nGroups cutoff delta | params (descending)
+    let (hd, ps) := splitBar rest
+    match ng.toNat?, floatList hd, floatList ps with
+    | some n, some [c0, dl], some params =>
+      let sizes (g : List (List Float)) : String :=
+        " ".intercalate (g.map fun grp => toString grp.length)
+      match Orifice.group (strict == "1") n c0 dl params with
+      | Orifice.Outcome.ok g => "ok " ++ sizes g
+      | Orifice.Outcome.notConverged g => "error " ++ sizes g
+    | _, _, _ => "bad-op"
   | _ => "bad-op"
 
 partial def loop (h : IO.FS.Stream) : IO Unit := do
